@@ -11,7 +11,8 @@ META = {
                    "connection to queued waiters before the idle list and returns only after delivery or draining; (P14) the delayed-drop state is chosen iff "
                    "continue_after_preemption, as_delayed moves the connector into a checkout with the same token and pool, and the pinned drop spawns exactly that; "
                    "(P3) the background checkout's Pooled result returns through WhenReady; (C14.1) with the option off the connector is owned by value and no spawn is reachable."
-                   " P12 / P13 are decision tables evaluated abstractly on the expanded units of Waiting::poll / Checkout::poll; P14 also checks the converse (as_delayed declines only when nothing is left to continue).",
+                   " P12 / P13 are decision tables evaluated abstractly on the expanded units of Waiting::poll / Checkout::poll; P14 also checks the converse (as_delayed declines only when nothing is left to continue)."
+                   " As built now: P9 (hand-back), P10 / P14 (pinned drop, as_delayed, the state a new checkout starts in) are the decision tables of pooltable.py; P16b (no try_lock on the hand-back path) is claimed here as well.",
     "trusted_base": ["rustc type/borrow checker", "tokio oneshot wakes the receiver's task on send/drop", "tokio::spawn runs the future"],
     "assumptions": ["wake-ups inside tokio's oneshot (our side registers the waker: E-WAKER)"],
     "undecided": "'no later than its next poll' in wall-clock terms; scheduling of the spawned task",
